@@ -5,8 +5,10 @@
 // Part "observable": every history of AddCallback / RemoveCallback / destroy-instrument /
 // script(callback) / Collect(reader) up to the depth bound on the real Meter, ObservableRegistry,
 // AsyncMetricStorage and TemporalMetricStorage with 1..3 pull readers of mixed temporality.
+// Sub-part "second instrument": a second observable instrument "o2" (a gauge of the OTHER value type) on
+// the same meter, whose callback is the same (function, state) pair as cb0 of "o".
 // Part "syncgauge" (only when compiled with OPENTELEMETRY_ABI_VERSION_NO >= 2): every history of
-// Record(value, attrs) / Collect(reader) on a synchronous gauge.
+// Record(value, attrs) / Collect(reader) on a synchronous gauge (all four Record overloads).
 #include <algorithm>
 #include <chrono>
 #include <map>
@@ -14,6 +16,7 @@
 #include <string>
 #include <vector>
 
+#include <opentelemetry/context/context.h>
 #include <opentelemetry/sdk/common/global_log_handler.h>
 #include <opentelemetry/sdk/metrics/async_instruments.h>
 #include <opentelemetry/sdk/metrics/meter.h>
@@ -43,17 +46,26 @@ const char *const kAttrName[NATTR] = {"{}", "{a=1}", "{a=2}", "{a=3}"};
 
 int64_t ts_ns(const common::SystemTimestamp &t) { return t.time_since_epoch().count(); }
 
+// A pull reader whose temporality selector depends on the instrument type it is asked about, as the
+// selectors of real exporters do: it answers its configured temporality for the types of the instruments
+// of this run and the opposite one for every other type, so a storage that asks with a wrong type gets
+// the wrong temporality.
 class PullReader : public sdkm::MetricReader {
  public:
-  explicit PullReader(bool delta) : delta_(delta) {}
-  sdkm::AggregationTemporality GetAggregationTemporality(sdkm::InstrumentType) const noexcept override {
-    return delta_ ? sdkm::AggregationTemporality::kDelta : sdkm::AggregationTemporality::kCumulative;
+  PullReader(bool delta, sdkm::InstrumentType expect, sdkm::InstrumentType expect2) : delta_(delta), expect_(expect), expect2_(expect2) {}
+  sdkm::AggregationTemporality GetAggregationTemporality(sdkm::InstrumentType t) const noexcept override {
+    bool d = delta_;
+    if (t != expect_ && t != expect2_) { asked_wrong_ = true; wrong_type_ = (int)t; d = !d; }
+    return d ? sdkm::AggregationTemporality::kDelta : sdkm::AggregationTemporality::kCumulative;
   }
+  mutable bool asked_wrong_ = false;
+  mutable int wrong_type_ = 0;
 
  private:
   bool OnForceFlush(std::chrono::microseconds) noexcept override { return true; }
   bool OnShutDown(std::chrono::microseconds) noexcept override { return true; }
   bool delta_;
+  sdkm::InstrumentType expect_, expect2_;
 };
 
 int attr_id(const std::map<std::string, opentelemetry::sdk::common::OwnedAttributeValue> &m) {
@@ -146,8 +158,14 @@ struct ReaderCfg { int n; bool delta[3]; };
 //   ties:  clock-tie deviation sub-run (gauges only): the clock stands still during every operation
 //          and is advanced by 1 ms before each clock-reading operation, except for at most two
 //          "tied" ones per history; everything found here carries the signature prefix C17:clock-tie
+//   sec:   second-instrument sub-run: "o2", an observable gauge of the other value type, on the same meter;
+//          callbacks cb0 = (fnA,&S0) on "o" and cb3 = the SAME pair (fnA,&S0) on "o2"; histories start with
+//          both registered (in either order); operations step(cb0|cb3), Add/Remove(cb0|cb3),
+//          Destroy(o), Destroy(o2), Collect
+//   orphan: (sync gauge build only) no history: every Record overload on a gauge that was created from a
+//          meter whose MeterProvider is gone
 enum ReaderSet { ALL14 = 0, REP8 = 1, REP6 = 2, TWO5 = 3 };
-struct Part { int depth; bool rich; ReaderSet readers; bool both_starts; bool slim; bool ties; };
+struct Part { int depth; bool rich; ReaderSet readers; bool both_starts; bool slim; bool ties; bool sec; bool orphan; };
 std::vector<Part> g_parts;
 std::vector<ReaderCfg> g_reader_sets[4];
 
@@ -157,30 +175,38 @@ struct Got {
   int64_t val[NATTR] = {0, 0, 0, 0};
 };
 
-// Pulls one collection through reader `rd` and sorts the points of stream `name` by attribute set.
+// Pulls one collection through reader `rd` and sorts the points of the streams `spec[0..n)` by attribute set.
 // Returns a non-empty signature if the shape of the result is wrong.
-std::string pull(PullReader &rd, const std::string &name, bool is_gauge, bool is_double, Got *got, std::string *msg) {
+struct StreamSpec { std::string name; bool is_gauge; bool is_double; };
+std::string pull(PullReader &rd, const StreamSpec *spec, int n, Got *got, std::string *msg) {
   std::string sig;
   auto problem = [&](const char *s, const std::string &m) { if (sig.empty()) { sig = s; *msg = m; } };
   rd.Collect([&](sdkm::ResourceMetrics &rmx) {
     for (auto &sm : rmx.scope_metric_data_)
       for (auto &md : sm.metric_data_) {
-        if (md.instrument_descriptor.name_ != name) { problem("C17:unknown-stream", "a stream named '" + md.instrument_descriptor.name_ + "' was collected"); continue; }
-        if (got->present) { problem("C17:duplicate-stream", "the stream was handed to the reader twice in one collection"); continue; }
-        got->present = true;
+        int si = -1;
+        for (int i = 0; i < n; ++i) if (md.instrument_descriptor.name_ == spec[i].name) si = i;
+        if (si < 0) { problem("C17:unknown-stream", "a stream named '" + md.instrument_descriptor.name_ + "' was collected"); continue; }
+        Got *g = &got[si];
+        if (g->present) { problem("C17:duplicate-stream", "stream '" + spec[si].name + "' was handed to the reader twice in one collection"); continue; }
+        g->present = true;
         for (auto &p : md.point_data_attr_) {
           int id = attr_id(p.attributes);
           if (id < 0) { problem("C17:unexpected-attributes", "a point with an attribute set that was never reported"); continue; }
-          if (got->has[id]) { problem("C17:duplicate-point", vf::sfmt("two points for attribute set %s in one collection", kAttrName[id])); continue; }
-          PointVal pv = point_val(is_gauge, is_double, p.point_data);
-          if (!pv.ok) { problem("C17:point-type", pv.why + vf::sfmt(" (attribute set %s)", kAttrName[id])); continue; }
-          got->has[id] = true;
-          got->val[id] = pv.units;
+          if (g->has[id]) { problem("C17:duplicate-point", vf::sfmt("two points for attribute set %s in one collection of stream '%s'", kAttrName[id], spec[si].name.c_str())); continue; }
+          PointVal pv = point_val(spec[si].is_gauge, spec[si].is_double, p.point_data);
+          if (!pv.ok) { problem("C17:point-type", pv.why + vf::sfmt(" (stream '%s', attribute set %s)", spec[si].name.c_str(), kAttrName[id])); continue; }
+          g->has[id] = true;
+          g->val[id] = pv.units;
         }
       }
     return true;
   });
   return sig;
+}
+std::string pull(PullReader &rd, const std::string &name, bool is_gauge, bool is_double, Got *got, std::string *msg) {
+  StreamSpec sp{name, is_gauge, is_double};
+  return pull(rd, &sp, 1, got, msg);
 }
 
 // ------------------------------------------------------------------------------------------------
@@ -189,13 +215,17 @@ std::string pull(PullReader &rd, const std::string &name, bool is_gauge, bool is
 enum OKind { O_COUNTER = 0, O_UPDOWN = 1, O_GAUGE = 2 };
 const char *const kOKindName[3] = {"ObservableCounter", "ObservableUpDownCounter", "ObservableGauge"};
 
-constexpr int NSLOT = 3;
+constexpr int NSLOT = 3;   // callbacks of instrument "o"
+constexpr int NSLOT2 = 4;  // + slot 3 = (fnA, &S0) registered on the second instrument "o2" (sub-run "sec")
 // slot -> attribute sets it may report (bit mask over attribute ids) and value functions
 //   slot 0 = (fnA, &S0): {} always, {a=1} while toggled on     values v, 10+2v
 //   slot 1 = (fnB, &S0): {a=2} (thorough: may be toggled off)  value 20+3v
 //   slot 2 = (fnA, &S1): {a=3}                                 value 40+5v
+//   slot 3 = (fnA, &S0) on the second instrument "o2": {} only      value 60+7v
 // Slots 0/1 share the state pointer and slots 0/2 share the function pointer, so that removal has to
-// compare both.
+// compare both; slots 0/3 are the identical pair registered on two instruments, so that removal and the
+// destruction of one instrument have to compare the instrument. "o2" has the other value type, which is
+// how an invocation of the shared pair tells for which of the two instruments it runs.
 // rep[j] = how many times ONE invocation of slot j observes each of its attribute sets (1..3): the
 // earlier observations carry provisional values (truth + 100, truth + 200), the last one the truth
 // ("replays buffered samples oldest first" / "provisional, then corrected total"). The last
@@ -205,8 +235,9 @@ struct World;
 struct CbState { World *w; int slotA; int slotB; };
 struct World {
   bool is_double = false;
-  int calls[NSLOT] = {0, 0, 0};
-  int64_t v[NSLOT] = {1, 1, 1};
+  bool sec = false;
+  int calls[NSLOT2] = {0, 0, 0, 0};
+  int64_t v[NSLOT2] = {1, 1, 1, 1};
   bool extra0 = false;  // slot 0 also reports {a=1}
   bool on1 = true;      // slot 1 reports {a=2}
   int rep[NSLOT] = {1, 1, 1};
@@ -222,7 +253,16 @@ struct World {
   }
   // attribute sets slot j reports at the moment
   unsigned mask(int j) const { return j == 0 ? (1u | (extra0 ? 2u : 0u)) : j == 1 ? (on1 ? 4u : 0u) : 8u; }
+  int64_t value2() const { return 60 + 7 * v[3]; }  // what slot 3 reports for {} on "o2"
   void invoke(int slot, api::ObserverResult &res) {
+    const bool res_double = nostd::holds_alternative<nostd::shared_ptr<api::ObserverResultT<double>>>(res);
+    if (sec && slot == 0 && res_double != is_double) {
+      // the pair (fnA, &S0) invoked with a result of the other value type: this is its registration on "o2"
+      calls[3]++;
+      if (res_double) nostd::get<nostd::shared_ptr<api::ObserverResultT<double>>>(res)->Observe((double)value2() / 4.0);
+      else nostd::get<nostd::shared_ptr<api::ObserverResultT<int64_t>>>(res)->Observe(value2());
+      return;
+    }
     calls[slot]++;
     unsigned m = mask(slot);
     for (int a = 0; a < NATTR; ++a) {
@@ -259,6 +299,8 @@ void run_observable(vf::Ctx &c) {
   const std::vector<ReaderCfg> &g_readers = g_reader_sets[P.readers];
   const int rcfg = c.pick("readers", (int)g_readers.size());
   const bool prereg = P.both_starts ? c.pick("start", 2) == 0 : true;
+  const bool sec = P.sec;
+  const int sec_order = sec ? c.pick("order", 2) : 0;  // second-instrument sub-run: cb0 registered before cb3, or after
   const ReaderCfg &RC = g_readers[rcfg];
   const int R = RC.n;
   const bool is_gauge = kind == O_GAUGE;
@@ -266,30 +308,47 @@ void run_observable(vf::Ctx &c) {
 
   c.stage("setup");
   sdkm::MeterProvider provider(std::unique_ptr<sdkm::ViewRegistry>(new sdkm::ViewRegistry()), opentelemetry::sdk::resource::Resource::GetEmpty());
+  const sdkm::InstrumentType itype = kind == O_COUNTER ? sdkm::InstrumentType::kObservableCounter
+                                     : kind == O_UPDOWN ? sdkm::InstrumentType::kObservableUpDownCounter
+                                                        : sdkm::InstrumentType::kObservableGauge;
   std::vector<std::shared_ptr<PullReader>> readers;
   for (int r = 0; r < R; ++r) {
-    readers.push_back(std::make_shared<PullReader>(RC.delta[r]));
+    readers.push_back(std::make_shared<PullReader>(RC.delta[r], itype, sec ? sdkm::InstrumentType::kObservableGauge : itype));
     provider.AddMetricReader(readers.back());
   }
   nostd::shared_ptr<api::Meter> meter = provider.GetMeter("m");
   sdkm::Meter *sdk_meter = static_cast<sdkm::Meter *>(meter.get());
   World w;
   w.is_double = is_double;
+  w.sec = sec;
   w.s0 = CbState{&w, 0, 1};
   w.s1 = CbState{&w, 2, -1};
   nostd::shared_ptr<api::ObservableInstrument> inst;
   if (kind == O_COUNTER) inst = is_double ? meter->CreateDoubleObservableCounter("o") : meter->CreateInt64ObservableCounter("o");
   else if (kind == O_UPDOWN) inst = is_double ? meter->CreateDoubleObservableUpDownCounter("o") : meter->CreateInt64ObservableUpDownCounter("o");
   else inst = is_double ? meter->CreateDoubleObservableGauge("o") : meter->CreateInt64ObservableGauge("o");
-  api::ObservableCallbackPtr fn[NSLOT] = {fnA, fnB, fnA};
-  void *st[NSLOT] = {&w.s0, &w.s0, &w.s1};
+  api::ObservableCallbackPtr fn[NSLOT2] = {fnA, fnB, fnA, fnA};
+  void *st[NSLOT2] = {&w.s0, &w.s0, &w.s1, &w.s0};
   // the storage stays registered with the meter when the instrument handle is destroyed
   sdkm::AsyncMetricStorage *storage = static_cast<sdkm::AsyncMetricStorage *>(sdk_meter->storage_registry_.begin()->second.get());
+  // second instrument: a gauge of the other value type on the same meter
+  nostd::shared_ptr<api::ObservableInstrument> inst2;
+  sdkm::AsyncMetricStorage *storage2 = nullptr;
+  if (sec) {
+    inst2 = is_double ? meter->CreateInt64ObservableGauge("o2") : meter->CreateDoubleObservableGauge("o2");
+    for (auto &kv : sdk_meter->storage_registry_)
+      if (kv.second.get() != static_cast<sdkm::MetricStorage *>(storage)) storage2 = static_cast<sdkm::AsyncMetricStorage *>(kv.second.get());
+    c.check(storage2 != nullptr, "C17:second-instrument-has-no-storage", "the meter's registry holds no second storage after a second observable instrument was created");
+  }
+  const api::ObservableInstrument *const inst_id = inst.get(), *const inst2_id = inst2.get();  // identities (for the state hash) that survive the handles
   auto collectors = provider.context_->GetCollectors();
+  const StreamSpec specs[2] = {{"o", kind == O_GAUGE, is_double}, {"o2", true, !is_double}};
 
   // ---- model ----
-  bool alive = true;
-  bool registered[NSLOT] = {false, false, false};
+  bool alive = true, alive2 = sec;
+  bool registered[NSLOT2] = {false, false, false, false};
+  bool ever2 = false;
+  int64_t last_total2 = 0;  // most recent observation of {} on "o2"
   bool ever[NATTR] = {false, false, false, false};
   int64_t last_total[NATTR] = {0, 0, 0, 0};           // most recent observation per attribute set (any collection)
   int64_t given[3][NATTR] = {{0, 0, 0, 0}, {0, 0, 0, 0}, {0, 0, 0, 0}};  // delta readers: sum of what the reader received so far
@@ -297,7 +356,15 @@ void run_observable(vf::Ctx &c) {
   std::string cfgs = vf::sfmt("%s%s<%s> readers=", P.ties ? "clock-ties " : "", kOKindName[kind], is_double ? "double" : "int64");
   for (int r = 0; r < R; ++r) cfgs += RC.delta[r] ? 'D' : 'C';
   std::string hist, outlog;
-  if (prereg) {
+  if (sec) {
+    cfgs = "second-instrument(o2:ObservableGauge<" + std::string(is_double ? "int64" : "double") + ">) " + cfgs;
+    c.stage("AddCallback");
+    for (int i = 0; i < 2; ++i) {
+      if ((i == 0) == (sec_order == 0)) { inst->AddCallback(fn[0], st[0]); hist += " Add(cb0 on o)"; }
+      else { inst2->AddCallback(fn[3], st[3]); hist += " Add(cb3 on o2)"; }
+    }
+    registered[0] = registered[3] = true;
+  } else if (prereg) {
     c.stage("AddCallback");
     inst->AddCallback(fn[0], st[0]);
     registered[0] = true;
@@ -306,21 +373,27 @@ void run_observable(vf::Ctx &c) {
 
   auto real_state = [&](vf::H128 &h) {
     h.add(0xc17);
-    h.add((uint64_t)part); h.add((uint64_t)kind); h.add(is_double); h.add((uint64_t)rcfg); h.add(alive);
+    h.add((uint64_t)part); h.add((uint64_t)kind); h.add(is_double); h.add((uint64_t)rcfg); h.add(alive); h.add(alive2);
     // registered callbacks in invocation order
     for (auto &rec : sdk_meter->observable_registry_->callbacks_) {
       int slot = -1;
       for (int j = 0; j < NSLOT; ++j) if (rec->callback == fn[j] && rec->state == st[j]) slot = j;
       h.add(0x50 + (uint64_t)(slot + 1));
-      h.add(rec->instrument == inst.get() ? 1 : 2);
+      h.add(rec->instrument == inst_id ? 1 : (sec && rec->instrument == inst2_id) ? 3 : 2);
     }
     hash_map(h, is_gauge, is_double, storage->cumulative_hash_map_.get());
     hash_map(h, is_gauge, is_double, storage->delta_hash_map_.get());
     hash_temporal(h, is_gauge, is_double, storage->temporal_metric_storage_, collectors);
+    if (storage2) {
+      hash_map(h, true, !is_double, storage2->cumulative_hash_map_.get());
+      hash_map(h, true, !is_double, storage2->delta_hash_map_.get());
+      hash_temporal(h, true, !is_double, storage2->temporal_metric_storage_, collectors);
+    }
     h.add((uint64_t)vf::clock_virtual_ns());
   };
   auto model_state = [&](vf::H128 &h) {
-    for (int j = 0; j < NSLOT; ++j) { h.add(registered[j]); h.add((uint64_t)w.v[j]); }
+    for (int j = 0; j < NSLOT2; ++j) { h.add(registered[j]); h.add((uint64_t)w.v[j]); }
+    h.add(ever2); h.add((uint64_t)last_total2);
     h.add(w.extra0); h.add(w.on1);
     for (int j = 0; j < NSLOT; ++j) h.add((uint64_t)w.rep[j]);
     for (int a = 0; a < NATTR; ++a) { h.add(ever[a]); h.add((uint64_t)last_total[a]); }
@@ -339,7 +412,10 @@ void run_observable(vf::Ctx &c) {
     // right after it is registered again.
     Op ops[24];
     int n = 0;
-    if (!last) {
+    if (!last && sec) {
+      if (registered[0]) ops[n++] = {OP_STEP, 0};
+      if (registered[3]) ops[n++] = {OP_STEP, 3};
+    } else if (!last) {
       for (int j = 0; j < NSLOT; ++j) {
         if (!registered[j] || (P.slim && j != 0)) continue;
         ops[n++] = {OP_STEP, j};
@@ -355,7 +431,10 @@ void run_observable(vf::Ctx &c) {
     for (int r = 0; r < R; ++r) ops[n++] = {OP_COLLECT, r};
     if (P.ties && ties_used < 2 && d > 0)
       for (int r = 0; r < R; ++r) ops[n++] = {OP_COLLECT_TIED, r};
-    if (!last && alive) {
+    if (!last && sec) {
+      if (alive) { ops[n++] = {registered[0] ? OP_REMOVE : OP_ADD, 0}; ops[n++] = {OP_DESTROY, 0}; }
+      if (alive2) { ops[n++] = {registered[3] ? OP_REMOVE : OP_ADD, 3}; ops[n++] = {OP_DESTROY, 1}; }
+    } else if (!last && alive) {
       for (int j = 0; j < NSLOT; ++j)
         if (!(P.slim && j == 1)) ops[n++] = {registered[j] ? OP_REMOVE : OP_ADD, j};
       ops[n++] = {OP_DESTROY, 0};
@@ -388,19 +467,26 @@ void run_observable(vf::Ctx &c) {
         break;
       case OP_ADD:
         c.stage("AddCallback");
-        hist += vf::sfmt(" Add(cb%d)", op.arg);
-        inst->AddCallback(fn[op.arg], st[op.arg]);
+        hist += vf::sfmt(" Add(cb%d%s)", op.arg, !sec ? "" : op.arg == 3 ? " on o2" : " on o");
+        (op.arg == 3 ? inst2 : inst)->AddCallback(fn[op.arg], st[op.arg]);
         registered[op.arg] = true;
         break;
       case OP_REMOVE:
         c.stage("RemoveCallback");
-        hist += vf::sfmt(" Remove(cb%d)", op.arg);
-        inst->RemoveCallback(fn[op.arg], st[op.arg]);
+        hist += vf::sfmt(" Remove(cb%d%s)", op.arg, !sec ? "" : op.arg == 3 ? " on o2" : " on o");
+        (op.arg == 3 ? inst2 : inst)->RemoveCallback(fn[op.arg], st[op.arg]);
         registered[op.arg] = false;
         break;
       case OP_DESTROY:
         c.stage("DestroyInstrument");
-        hist += " Destroy";
+        if (op.arg == 1) {
+          hist += " Destroy(o2)";
+          inst2 = nostd::shared_ptr<api::ObservableInstrument>();
+          alive2 = false;
+          registered[3] = false;
+          break;
+        }
+        hist += sec ? " Destroy(o)" : " Destroy";
         inst = nostd::shared_ptr<api::ObservableInstrument>();
         alive = false;
         for (int j = 0; j < NSLOT; ++j) registered[j] = false;
@@ -410,24 +496,29 @@ void run_observable(vf::Ctx &c) {
         const bool delta = RC.delta[r];
         c.stage("Collect");
         hist += vf::sfmt(" Collect(r%d)", r);
-        int before[NSLOT];
-        for (int j = 0; j < NSLOT; ++j) before[j] = w.calls[j];
-        Got g;
+        int before[NSLOT2];
+        for (int j = 0; j < NSLOT2; ++j) before[j] = w.calls[j];
+        Got gs[2];
+        Got &g = gs[0];
         std::string pmsg;
-        std::string psig = pull(*readers[r], "o", is_gauge, is_double, &g, &pmsg);
+        std::string psig = pull(*readers[r], specs, sec ? 2 : 1, gs, &pmsg);
         std::string where = " [" + cfgs + ";" + hist + "]";
-        // --- invocation counts ---
-        for (int j = 0; j < NSLOT; ++j) {
+        // --- invocation counts (per instrument and callback) ---
+        for (int j = 0; j < (sec ? NSLOT2 : NSLOT); ++j) {
           int k = w.calls[j] - before[j];
+          const char *on = !sec ? "" : j == 3 ? " (registered on o2)" : " (registered on o)";
           if (registered[j]) {
-            c.check(k >= 1, S("C17:registered-callback-not-invoked"), vf::sfmt("callback cb%d is registered but was not invoked by this collection", j) + where);
-            c.check(k <= 1, S("C17:callback-invoked-more-than-once"), vf::sfmt("callback cb%d was invoked %d times by one collection", j, k) + where);
+            c.check(k >= 1, S("C17:registered-callback-not-invoked"), vf::sfmt("callback cb%d%s is registered but was not invoked by this collection", j, on) + where);
+            c.check(k <= 1, S("C17:callback-invoked-more-than-once"), vf::sfmt("callback cb%d%s was invoked %d times by one collection", j, on, k) + where);
           } else {
-            c.check(k == 0, S(alive ? "C17:removed-callback-invoked" : "C17:callback-invoked-after-instrument-destroyed"),
-                    vf::sfmt("callback cb%d is not registered but was invoked %d time(s)", j, k) + where);
+            c.check(k == 0, S((j == 3 ? alive2 : alive) ? "C17:removed-callback-invoked" : "C17:callback-invoked-after-instrument-destroyed"),
+                    vf::sfmt("callback cb%d%s is not registered but was invoked %d time(s)", j, on, k) + where);
           }
         }
         c.check(!w.wrong_type, S("C17:observer-result-type"), "a callback was handed an ObserverResult of the other value type" + where);
+        for (int q = 0; q < R; ++q)
+          c.check(!readers[q]->asked_wrong_, S("C17:temporality-asked-for-wrong-type"),
+                  vf::sfmt("reader r%d was asked for its temporality with instrument type %d, which no instrument of this meter has", q, readers[q]->wrong_type_) + where);
         if (!psig.empty()) c.fail(S(psig), pmsg + where);
         // --- what was observed by this collection ---
         bool obs[NATTR] = {false, false, false, false};
@@ -462,6 +553,25 @@ void run_observable(vf::Ctx &c) {
                                  show_units(is_double, last_total[a]).c_str(), show_units(is_double, want).c_str()) + where);
           }
         }
+        if (sec) {
+          // the second instrument (a gauge of the other value type): {} = what cb3 observed last
+          const Got &g2 = gs[1];
+          const bool obs2 = registered[3];
+          if (obs2) { last_total2 = w.value2(); ever2 = true; }
+          outlog += "/o2:";
+          if (!g2.present) outlog += "-";
+          for (int a = 1; a < NATTR; ++a)
+            c.check(!g2.has[a], S("C17:second-instrument:foreign-attribute-set"), vf::sfmt("stream 'o2' carries a point for %s, which only callbacks of instrument 'o' report", kAttrName[a]) + where);
+          if (g2.has[0]) {
+            outlog += vf::sfmt("0=%lld,", (long long)g2.val[0]);
+            c.check(ever2 && g2.val[0] == last_total2, S("C17:second-instrument:gauge-not-latest-value"),
+                    vf::sfmt("reader r%d, stream 'o2': got %s, the latest observation of its callback is %s%s", r, show_units(!is_double, g2.val[0]).c_str(),
+                             ever2 ? show_units(!is_double, last_total2).c_str() : "none", obs2 ? "" : " (not observed by this collection)") + where);
+          } else {
+            c.check(!obs2, S("C17:second-instrument:gauge-point-missing"),
+                    vf::sfmt("reader r%d, stream 'o2': no point although its callback reported %s in this collection", r, show_units(!is_double, last_total2).c_str()) + where);
+          }
+        }
         break;
       }
     }
@@ -477,9 +587,53 @@ void run_observable(vf::Ctx &c) {
 // Part 2: synchronous gauges (ABI v2 only)
 // ------------------------------------------------------------------------------------------------
 #if OPENTELEMETRY_ABI_VERSION_NO >= 2
+const char *const kOverloadName[4] = {"Record(V)", "Record(V,A)", "Record(V,C)", "Record(V,A,C)"};
+// The four Record overloads of LongGauge / DoubleGauge are separate hand-written bodies.
+template <class G, class V>
+void gauge_record(G &g, V v, int attr, bool with_ctx) {
+  if (!with_ctx) {
+    if (attr == 0) g->Record(v);
+    else g->Record(v, {{"a", (int32_t)attr}});
+  } else {
+    opentelemetry::context::Context ctx{"k", (int64_t)7};
+    if (attr == 0) g->Record(v, ctx);
+    else g->Record(v, {{"a", (int32_t)attr}}, ctx);
+  }
+}
+
+// The MeterProvider (and with it the MeterContext) is destroyed while the application still holds the
+// Meter; gauges created from then on have no storage and every Record must be a no-op.
+void run_syncgauge_orphan(vf::Ctx &c, int part) {
+  const bool is_double = c.pick("type", 2) == 1;
+  const int ov = c.pick("overload", 4);
+  c.stage("setup");
+  nostd::shared_ptr<api::Meter> meter;
+  {
+    sdkm::MeterProvider provider(std::unique_ptr<sdkm::ViewRegistry>(new sdkm::ViewRegistry()), opentelemetry::sdk::resource::Resource::GetEmpty());
+    meter = provider.GetMeter("m");
+  }
+  nostd::unique_ptr<api::Gauge<int64_t>> gi;
+  nostd::unique_ptr<api::Gauge<double>> gd;
+  if (is_double) gd = meter->CreateDoubleGauge("g");
+  else gi = meter->CreateInt64Gauge("g");
+  c.step();
+  // the stage names the overload: a crash is reported as C17:crash:<stage>
+  c.stage(vf::sfmt("%s::%s:meter-outlived-provider", is_double ? "DoubleGauge" : "LongGauge", kOverloadName[ov]).c_str());
+  if (is_double) gauge_record(gd, 0.25, (ov & 1) ? 1 : 0, (ov & 2) != 0);
+  else gauge_record(gi, (int64_t)1, (ov & 1) ? 1 : 0, (ov & 2) != 0);
+  c.stage("done");
+  std::string s = vf::sfmt("part%d orphan %s::%s returned", part, is_double ? "DoubleGauge" : "LongGauge", kOverloadName[ov]);
+  vf::H128 st;
+  st.add(0xc172); st.add(is_double); st.add((uint64_t)ov);
+  c.state(st);
+  c.outcome(s);
+  c.sample(s);
+}
+
 void run_syncgauge(vf::Ctx &c) {
   const int part = c.pick("part", (int)g_parts.size());
   const Part &P = g_parts[part];
+  if (P.orphan) { run_syncgauge_orphan(c, part); return; }
   const int g_depth = P.depth;
   const bool is_double = c.pick("type", 2) == 1;
   if (P.ties) vf::clock_set_autostep_ns(-1000);  // the clock stands still unless the harness advances it
@@ -493,7 +647,7 @@ void run_syncgauge(vf::Ctx &c) {
   sdkm::MeterProvider provider(std::unique_ptr<sdkm::ViewRegistry>(new sdkm::ViewRegistry()), opentelemetry::sdk::resource::Resource::GetEmpty());
   std::vector<std::shared_ptr<PullReader>> readers;
   for (int r = 0; r < R; ++r) {
-    readers.push_back(std::make_shared<PullReader>(RC.delta[r]));
+    readers.push_back(std::make_shared<PullReader>(RC.delta[r], sdkm::InstrumentType::kGauge, sdkm::InstrumentType::kGauge));
     provider.AddMetricReader(readers.back());
   }
   nostd::shared_ptr<api::Meter> meter = provider.GetMeter("m");
@@ -541,10 +695,11 @@ void run_syncgauge(vf::Ctx &c) {
     if (op < n_rec) {
       int a = op / 3;
       int64_t u = kVals[op % 3];
+      const bool with_ctx = (d & 1) != 0;  // odd steps use the overloads that take an explicit Context (the step number is part of the pruning hash)
       c.stage("Record");
-      hist += vf::sfmt(" Record(%s,%s)", show_units(is_double, u).c_str(), kAttrName[a]);
-      if (is_double) { if (a == 0) gd->Record((double)u / 4.0); else gd->Record((double)u / 4.0, {{"a", (int32_t)a}}); }
-      else { if (a == 0) gi->Record(u); else gi->Record(u, {{"a", (int32_t)a}}); }
+      hist += vf::sfmt(" Record(%s,%s%s)", show_units(is_double, u).c_str(), kAttrName[a], with_ctx ? ",ctx" : "");
+      if (is_double) gauge_record(gd, (double)u / 4.0, a, with_ctx);
+      else gauge_record(gi, u, a, with_ctx);
       ever[a] = true;
       last[a] = u;
       for (int r = 0; r < R; ++r) fresh[r][a] = true;
@@ -556,6 +711,9 @@ void run_syncgauge(vf::Ctx &c) {
       std::string pmsg;
       std::string psig = pull(*readers[r], "g", true, is_double, &g, &pmsg);
       std::string where = " [" + cfgs + ";" + hist + "]";
+      for (int q = 0; q < R; ++q)
+        c.check(!readers[q]->asked_wrong_, S("C17:temporality-asked-for-wrong-type"),
+                vf::sfmt("reader r%d was asked for its temporality with instrument type %d, the instrument is a synchronous gauge (%d)", q, readers[q]->wrong_type_, (int)sdkm::InstrumentType::kGauge) + where);
       if (!psig.empty()) c.fail(S(psig), pmsg + where);
       outlog += vf::sfmt("|r%d:", r);
       for (int a = 0; a < NATTR; ++a) {
@@ -597,18 +755,22 @@ void setup(vf::Options &o) {
   g_reader_sets[REP8] = {{1, {D}}, {1, {C}}, {2, {D, D}}, {2, {D, C}}, {2, {C, C}}, {3, {D, D, C}}, {3, {D, C, C}}, {3, {C, D, D}}};
   g_reader_sets[REP6] = {{1, {D}}, {1, {C}}, {2, {D, D}}, {2, {D, C}}, {3, {D, D, C}}, {3, {D, C, C}}};
   g_reader_sets[TWO5] = {{1, {D}}, {1, {C}}, {2, {D, D}}, {2, {D, C}}, {2, {C, C}}};
-  //                 depth rich  readers both   slim   ties
+  //                 depth rich  readers both   slim   ties   sec    orphan
 #if OPENTELEMETRY_ABI_VERSION_NO >= 2
-  if (o.thorough) g_parts = {{5, false, ALL14, false, false, false}, {6, false, TWO5, false, false, false}, {5, false, REP6, false, false, true}};
-  else g_parts = {{4, false, REP6, false, false, false}, {4, false, TWO5, false, false, true}};
+  if (o.thorough)
+    g_parts = {{5, false, ALL14, false, false, false, false, false}, {6, false, TWO5, false, false, false, false, false}, {5, false, REP6, false, false, true, false, false},
+               {1, false, TWO5, false, false, false, false, true}};
+  else g_parts = {{4, false, REP6, false, false, false, false, false}, {4, false, TWO5, false, false, true, false, false}, {1, false, TWO5, false, false, false, false, true}};
 #else
   if (o.thorough)
-    g_parts = {{5, true, ALL14, true, false, false}, {6, false, REP6, false, false, false}, {7, false, TWO5, false, true, false}, {5, false, REP6, false, false, true}};
-  else g_parts = {{5, false, REP6, false, false, false}, {4, false, TWO5, false, false, true}};
+    g_parts = {{5, true, ALL14, true, false, false, false, false}, {6, false, REP6, false, false, false, false, false}, {7, false, TWO5, false, true, false, false, false},
+               {5, false, REP6, false, false, true, false, false}, {6, false, REP6, false, false, false, true, false}};
+  else g_parts = {{5, false, REP6, false, false, false, false, false}, {4, false, TWO5, false, false, true, false, false}, {4, false, TWO5, false, false, false, true, false}};
 #endif
   std::string d = o.get("depth");
   if (!d.empty())
-    g_parts = {{atoi(d.c_str()), o.get("rich") == "1", (ReaderSet)atoi(o.get("readers", "1").c_str()), o.get("bothstarts") == "1", o.get("slim") == "1", o.get("ties") == "1"}};
+    g_parts = {{atoi(d.c_str()), o.get("rich") == "1", (ReaderSet)atoi(o.get("readers", "1").c_str()), o.get("bothstarts") == "1", o.get("slim") == "1", o.get("ties") == "1",
+                o.get("sec") == "1", o.get("orphan") == "1"}};
 }
 
 void run(vf::Ctx &c) {
